@@ -475,6 +475,11 @@ fn history(case: &mut Case) -> Result<(), String> {
         let what = format!("after history [{}]", log.join("; "));
         cmp(&m, &a, r, c, &what)?;
         cmp_getters(&m, &a, r, c, &what)?;
+        // the matrix EQUALS the model put through the same sequence - also through the == operator
+        let fresh = mk(&a, r, c);
+        if !(m == fresh) || !(fresh == m) || m != fresh {
+            return Err(format!("{}: same shape and entries as a freshly built matrix but the == operator says they differ", what));
+        }
     }
     case.class(format!("history steps={}", (log.len() - 1).min(40) / 10 * 10));
     if shape_changed {
@@ -551,16 +556,182 @@ fn norms(case: &mut Case) -> Result<(), String> {
     Ok(())
 }
 
+fn fval(src: &mut Src) -> f64 {
+    match src.below(5) {
+        0 => 0.0,
+        1 => src.small_int(9) as f64 / 10.0, // non-dyadic
+        2 => gen::f64_log(src, -8.0, 8.0),
+        3 => gen::f64_log(src, -1.0, 1.0),
+        _ => src.small_int(40) as f64,
+    }
+}
+fn same_bits(m: &Matrix<f64>, a: &[Vec<f64>], r: usize, c: usize, what: &str) -> Result<(), String> {
+    if m.rows() != r || m.cols() != c || m.numel() != r * c {
+        return Err(format!("{}: shape {}x{} expected {}x{}", what, m.rows(), m.cols(), r, c));
+    }
+    for i in 0..r {
+        for j in 0..c {
+            if m[(i, j)].to_bits() != a[i][j].to_bits() {
+                return Err(format!("{}: entry ({},{}) = {:e}, expected {:e} (data movement must not change a value)", what, i, j, m[(i, j)], a[i][j]));
+            }
+        }
+    }
+    Ok(())
+}
+
+/// data-movement history on f64 matrices with non-dyadic, mixed-magnitude values (every operation here only
+/// moves or overwrites values, so the comparison is bitwise), followed by the norms of the result
+fn history_f64(case: &mut Case) -> Result<(), String> {
+    let (mut r, mut c) = (case.src.usize_below(7), case.src.usize_below(7));
+    let mut a: Vec<Vec<f64>> = (0..r).map(|_| (0..c).map(|_| fval(&mut case.src)).collect()).collect();
+    let mut m = Matrix::<f64>::new(r, c, 0.0);
+    for i in 0..r {
+        for j in 0..c {
+            m[(i, j)] = a[i][j];
+        }
+    }
+    let steps = case.src.urange(1, 24);
+    let mut log: Vec<String> = vec![format!("start {}x{} {:?}", r, c, a)];
+    for _ in 0..steps {
+        let desc;
+        match case.src.below(12) {
+            0 => {
+                if r == 0 || c == 0 { continue; }
+                let (i, j, v) = (case.src.usize_below(r), case.src.usize_below(c), fval(&mut case.src));
+                m[(i, j)] = v;
+                a[i][j] = v;
+                desc = format!("[({},{})]={:e}", i, j, v);
+            }
+            1 => {
+                if r == 0 { continue; }
+                let i = case.src.usize_below(r);
+                let nv: Vec<f64> = (0..c).map(|_| fval(&mut case.src)).collect();
+                m.set_row(i, Vector::create(nv.clone()));
+                desc = format!("set_row({},{:?})", i, nv);
+                a[i] = nv;
+            }
+            2 => {
+                if c == 0 { continue; }
+                let j = case.src.usize_below(c);
+                let nv: Vec<f64> = (0..r).map(|_| fval(&mut case.src)).collect();
+                m.set_col(j, Vector::create(nv.clone()));
+                for i in 0..r { a[i][j] = nv[i]; }
+                desc = format!("set_col({},{:?})", j, nv);
+            }
+            3 | 4 => {
+                if r == 0 { continue; }
+                let (i, j) = (case.src.usize_below(r), case.src.usize_below(r));
+                m.swap_rows(i, j);
+                a.swap(i, j);
+                desc = format!("swap_rows({},{})", i, j);
+            }
+            5 => {
+                if r == 0 || c == 0 { continue; }
+                let (i1, j1, i2, j2) = (case.src.usize_below(r), case.src.usize_below(c), case.src.usize_below(r), case.src.usize_below(c));
+                m.swap_elem(i1, j1, i2, j2);
+                let t = a[i1][j1];
+                a[i1][j1] = a[i2][j2];
+                a[i2][j2] = t;
+                desc = format!("swap_elem({},{},{},{})", i1, j1, i2, j2);
+            }
+            6 | 7 => {
+                if r == 0 { continue; }
+                // the last row is the interesting one for an in-place implementation
+                let i = if case.src.coin() { r - 1 } else { case.src.usize_below(r) };
+                m.delete_row(i);
+                a.remove(i);
+                r -= 1;
+                desc = format!("delete_row({})", i);
+            }
+            8 => {
+                let (r2, c2) = (case.src.usize_below(8), case.src.usize_below(8));
+                m.resize(r2, c2);
+                a = (0..r2).map(|i| (0..c2).map(|j| if i < r && j < c { a[i][j] } else { 0.0 }).collect()).collect();
+                r = r2;
+                c = c2;
+                desc = format!("resize({},{})", r2, c2);
+            }
+            9 => {
+                if case.src.coin() { m.transpose_in_place(); } else { m = m.transpose(); }
+                a = (0..c).map(|j| (0..r).map(|i| a[i][j]).collect()).collect();
+                std::mem::swap(&mut r, &mut c);
+                desc = "transpose".into();
+            }
+            10 => {
+                let v = fval(&mut case.src);
+                let off = case.src.range(-3, 3);
+                m.fill_band(off as isize, v);
+                for i in 0..r {
+                    let j = i as i64 + off;
+                    if j >= 0 && (j as usize) < c { a[i][j as usize] = v; }
+                }
+                desc = format!("fill_band({},{:e})", off, v);
+            }
+            _ => {
+                let cl = m.clone();
+                m.fill(-1.0);
+                m = cl;
+                desc = "m = m.clone()".into();
+            }
+        }
+        log.push(desc);
+        let what = format!("after f64 history [{}]", log.join("; "));
+        same_bits(&m, &a, r, c, &what)?;
+        for i in 0..r {
+            let row = m.get_row(i);
+            if row.vec.iter().zip(&a[i]).any(|(p, q)| p.to_bits() != q.to_bits()) {
+                return Err(format!("{}: get_row({}) = {:?}, expected {:?}", what, i, row.vec, a[i]));
+            }
+        }
+        // norms of the matrix as it is now (a stale tail behind the logical end must not be counted)
+        let nm = a.iter().flatten().map(|x| x.abs()).fold(0.0, f64::max);
+        if m.norm_max() != nm {
+            return Err(format!("{}: norm_max = {:e}, expected {:e}", what, m.norm_max(), nm));
+        }
+        let n1 = (0..c).map(|j| (0..r).map(|i| a[i][j].abs()).sum::<f64>()).fold(0.0, f64::max);
+        let ni = a.iter().map(|row| row.iter().map(|x| x.abs()).sum::<f64>()).fold(0.0, f64::max);
+        let tol = |v: f64| 4.0 * EPS * (r * c + 4) as f64 * v;
+        if !((m.norm_1() - n1).abs() <= tol(n1)) || !((m.norm_inf() - ni).abs() <= tol(ni)) {
+            return Err(format!("{}: norm_1 / norm_inf = {:e} / {:e}, expected {:e} / {:e}", what, m.norm_1(), m.norm_inf(), n1, ni));
+        }
+        let mut s2 = Dd::ZERO;
+        for x in a.iter().flatten() {
+            s2 = s2 + Dd::prod(*x, *x);
+        }
+        let fr = s2.to_f64().sqrt();
+        if !((m.norm_frob() - fr).abs() <= tol(fr)) {
+            return Err(format!("{}: norm_frob = {:e}, expected {:e}", what, m.norm_frob(), fr));
+        }
+        let mut fresh = Matrix::<f64>::new(r, c, 0.0);
+        for i in 0..r {
+            for j in 0..c {
+                fresh[(i, j)] = a[i][j];
+            }
+        }
+        if a.iter().flatten().all(|x| !x.is_nan()) && !(m == fresh) {
+            return Err(format!("{}: same shape and entries as a freshly built matrix but == says they differ", what));
+        }
+    }
+    case.class(format!("f64 data-movement history steps={}", (log.len() - 1) / 8 * 8));
+    if log.len() > 5 {
+        case.mark_nontrivial();
+    }
+    case.describe(|| format!("f64 history: {}", log.join("; ")));
+    Ok(())
+}
+
 impl Prop for C03 {
     fn id(&self) -> &'static str {
         "C03"
     }
     fn rule(&self) -> String {
-        "three case families selected by the first choice: (0) algebra: shape triple (r,k,c) in 0..=8^3 (all 729 enumerated in every run, plus random ones), \
+        "four case families selected by the first choice: (0) algebra: shape triple (r,k,c) in 0..=8^3 (all 729 enumerated in every run, plus random ones), \
          random small rationals; every operator/method of Matrix (products in borrowed and owned form, +,-,neg, scalar ops, compound assignments, transposes, eye, \
          row/column get/set for every column index, swap/delete/fill*/fill_band for every offset -9..9, resize to every target shape <= 8 (thorough) or a stride of them (quick), clear) \
          compared entry-by-entry and by shape with a Vec<Vec<Rat>> model; (1) histories of <= 40 editing steps on one matrix against the model, full comparison \
-         (shape, numel, every entry, every row and column getter) after every step; (2) norms of integer-valued f64 matrices (norm_1/inf/max exact, norm_p/frob vs double-double) and f64*Matrix. \
+         (shape, numel, every entry, every row and column getter) after every step; (2) norms of integer-valued f64 matrices (norm_1/inf/max exact, norm_p/frob vs double-double) and f64*Matrix; \
+         (3) data-movement histories (element/row/column writes, swap_rows, swap_elem, delete_row incl. the last row, resize, transposes, fill_band, clone) on f64 matrices with non-dyadic mixed-magnitude values, compared bitwise after every step together with norm_max/1/inf/frob of the current matrix; \
+         in (1) and (3) the matrix must also compare == to a freshly built matrix with the same entries. \
          Non-trivial: algebra with r != c or an empty dimension; history of >= 5 steps with a shape-changing step followed by a row/column operation; \
          norms of a non-square non-empty matrix. distinct = distinct decoded choice sequence."
             .into()
@@ -582,7 +753,7 @@ impl Prop for C03 {
         for r in 0..9 {
             for k in 0..9 {
                 for c in 0..9 {
-                    v.push(vec![raw_for(0, 3), raw_for(r, 9), raw_for(k, 9), raw_for(c, 9)]);
+                    v.push(vec![raw_for(0, 4), raw_for(r, 9), raw_for(k, 9), raw_for(c, 9)]);
                 }
             }
         }
@@ -595,10 +766,11 @@ impl Prop for C03 {
         Some("all 729 shape triples (r,k,c) in 0..=8^3 for the algebra family, element values random".into())
     }
     fn run(&self, case: &mut Case) -> Outcome {
-        let r = match case.src.below(3) {
+        let r = match case.src.below(4) {
             0 => algebra(case),
             1 => history(case),
-            _ => norms(case),
+            2 => norms(case),
+            _ => history_f64(case),
         };
         match r {
             Ok(()) => Outcome::Pass,
